@@ -50,6 +50,10 @@ class EventsOracle:
         self.probe_sol = True
         self.fault_call = None      # index of the detector invocation that raises (an event function failing), once
         self.faulted = False
+        self.landing_fault = None   # j: the rhs raises at its j-th evaluation of the landing on a terminal event
+        self.landing_armed = False
+        self.rhs = None
+        self.pending = []
 
     def __call__(self, sol_tuple, events, consts, direction, is_terminal, attributes):
         c = self.c
@@ -71,7 +75,18 @@ class EventsOracle:
         consts_ok = set(consts.keys()) == set(cur.keys()) and all(consts[k_] is cur[k_] for k_ in cur)
         flags_ok = consts_ok and all(bool(is_terminal[i]) == bool(ev.is_terminal) and int(direction[i]) == int(getattr(ev, "direction", 0)) for i, ev in enumerate(events))
         rep = []
+        forced_idx = set()
+        for pnd in list(self.pending):
+            # a crossing the detector had located in a step that was then abandoned: re-examining the rest of that step it is found again
+            # (the detector is deterministic), at the same place
+            if bool((pnd["root"] - t_prev) * (t_next - pnd["root"]) >= 0):
+                rep.append(dict(i=pnd["i"], ev=events[pnd["i"]], lam=(pnd["root"] - t_prev) / (t_next - t_prev), root=pnd["root"]))
+                forced_idx.add(pnd["i"])
+                self.pending.remove(pnd)
+                self.total += 1
         for i, ev in enumerate(events):
+            if i in forced_idx:
+                continue
             force = self.terminal_by is not None and k == self.terminal_by and ev.is_terminal
             if self.total >= self.max_total and not force:
                 continue
@@ -117,8 +132,13 @@ class EventsOracle:
                 lookup_ok = sol.y_interpolants[idx_] is piece
             except Exception:
                 lookup_ok = False
+        if terminate and self.landing_fault is not None and self.rhs is not None and not self.landing_armed:
+            # the user's rhs will raise at its j-th evaluation made while the step is re-taken up to the terminal event
+            self.landing_armed = True
+            self.rhs.fault_at = len(self.rhs.calls) + self.landing_fault
         self.calls.append(dict(k=k, t_prev=t_prev, t_next=t_next, reported=rep, terminate=terminate, piece=piece, lookup_ok=lookup_ok, flags_ok=flags_ok,
-                               n_pieces=len(sol.y_interpolants), rows_visible=len(self.system.t) if self.system is not None else None))
+                               n_pieces=len(sol.y_interpolants), rows_visible=len(self.system.t) if self.system is not None else None,
+                               dt_in_use=self.system.dt if self.system is not None else None))
         idx = np.array([r["i"] for r in rep], dtype=np.int64)
         roots = c.array([r["root"] for r in rep])
         return idx, roots, terminate, [r["ev"] for r in rep]
@@ -204,6 +224,10 @@ def scenario(c, inst, props):
     backward = (not infinite) and bool(tf - t0 < 0)
     sgn = -1 if backward else 1
     oracle.fault_call = inst.get("fault_call")
+    oracle.landing_fault = inst.get("landing_fault")
+    oracle.rhs = rhs
+    if "C12" in props:
+        return _landing_fault(c, inst, a, rhs, oracle, events, cb, t0, tf, adt, sgn, dense, kind, infinite)
     with patched(ds, "handle_events", oracle):
         if inst.get("two_calls"):
             # the span is covered by two integrate(events=...) calls: a crossing found at the very end of the first call is met again at
@@ -406,6 +430,49 @@ def scenario(c, inst, props):
                 c.check(P9 + ".callbacks_once_per_outer_step", len(cb_calls) == steps_that_recorded_rows(oracle, len(T)) == len(T) - 1, info=dict(cb=len(cb_calls), steps=len(oracle.calls), rows=len(T)))
                 if dense:
                     piece_checks(c, P9 + ".dense", a, probe, backward)
+
+
+def _landing_fault(c, inst, a, rhs, oracle, events, cb, t0, tf, adt, sgn, dense, kind, infinite):
+    """C12: a terminal event is found, and the rhs raises while the step is being re-taken up to it"""
+    import desolver.differential_system as ds
+    from desolver.exception_types import FailedIntegration
+    with patched(ds, "handle_events", oracle):
+        st, r = run(a.integrate, events=events, callback=[cb])
+        if not oracle.landing_armed or rhs.fault_at is None or len(rhs.calls) <= rhs.fault_at:
+            c.note("outcome", "no terminal event / the landing made fewer rhs evaluations")
+            rhs.fault_at = None
+            return
+        rhs.fault_at = None
+        c.case()
+        T = list(a.t)
+        c.check("c12.landing.raises_FailedIntegration", st == "exc" and isinstance(r, FailedIntegration), info=repr(r)[:120])
+        c.check("c12.landing.status_reports_failure", not a.success)
+        c.check("c12.landing.rows_paired_and_monotone", len(a.t) == len(a.y) and c.all([c.eq(T[0], t0)] + [c.lt(0, sgn * (T[i + 1] - T[i])) for i in range(len(T) - 1)]))
+        c.check("c12.landing.recorded_events_lie_in_recorded_range", c.all([c.le(0, sgn * (T[-1] - e.t) + 64 * spans.EPS64 * 64, 64) for e in a.events]),
+                info=dict(events=len(a.events), rows=len(T)))
+        if kind == "fixed":
+            # (the step in use when the terminal event was found: integrate() may legitimately have halved an over-long requested step)
+            c.check("c12.landing.working_step_is_still_the_one_in_use_before", c.eq(absval(c, a.dt), absval(c, oracle.calls[-1]["dt_in_use"]), 1))
+        if dense:
+            sol = a.sol
+            pieces = 0 if sol is None or sol.t_eval is None else len(sol.t_eval)
+            c.check("c12.landing.dense_output_one_piece_per_recorded_step", pieces == len(T) - 1, info=dict(pieces=pieces, rows=len(T)))
+        # the caller calls integrate() again with the same events: the run stops at the terminal event, which is recorded once
+        n_calls = len(oracle.calls)
+        last = oracle.calls[-1]
+        oracle.pending = [dict(i=r_["i"], root=r_["root"]) for r_ in last["reported"] if bool(sgn * (r_["root"] - T[-1]) > 0)]
+        # (what the abandoned call had reported beyond the recorded rows is not part of the reference list until it is found again)
+        last["reported"] = [r_ for r_ in last["reported"] if not bool(sgn * (r_["root"] - T[-1]) > 0)]
+        st2, r2 = run(a.integrate, events=events, callback=[cb])
+        if st2 != "ok":
+            cause = getattr(r2, "__cause__", None)
+            if not isinstance(cause, StepCap):
+                c.check("c12.landing.second_call_returns", False, info=repr(r2)[:160])
+            return
+        spec = spec_events(c, oracle)
+        rec = list(a.events)
+        c.check("c12.landing.after_resume_every_crossing_is_recorded_once", len(rec) == len(spec) and
+                c.all([c.all([c.eq(e.t, s_["root"]), e.event is s_["ev"]]) for e, s_ in zip(rec, spec)]), info=dict(rec=len(rec), spec=len(spec)))
 
 
 def scenario_e2e(c, inst, props):
